@@ -38,6 +38,13 @@ Theorem C20_code_entry_points :
 Proof. exact gen_entry_points. Qed.
 Print Assumptions C20_code_entry_points.
 
+(* BaseProxy.__init__ registers the after-fork hook unconditionally: a proxy rebuilt with
+   incref=False inside a spawned / forkserver child still takes its reference there *)
+Theorem C20_code_after_fork_hook :
+  G_manager.after_fork_hook_unconditional = true /\ G_manager.incref_guarded_then_hook = true.
+Proof. exact gen_after_fork_hook. Qed.
+Print Assumptions C20_code_after_fork_hook.
+
 (* the `exposed` sets computed by the real Server.create on this run, and the fallback names *)
 Theorem C20_code_exposed : forall m,
     exposed_of TList m = smem (mname m) G_manager.exposed_list /\
@@ -196,6 +203,18 @@ Theorem C20_iterator_witness_now_holds :
   dget (objs (snd (dispatch (y_srv y) 1 M_next [] 9))) 1 = Some (SlotE (OIter [5]) TIter).
 Proof. exact iterator_witness_now_holds. Qed.
 Print Assumptions C20_iterator_witness_now_holds.
+
+(* a proxy handed to a child inside the Process object counts as a live proxy of its own *)
+Theorem C20_inherited_proxy_takes_reference : forall y k p pid,
+    sysinv y -> nth_error (y_proxies y) k = Some p ->
+    let y' := fst (hstep y (H_inherit k pid)) in
+    snd (hstep y (H_inherit k pid)) = CO_ok /\
+    y_proxies y' = y_proxies y ++ [mk_proxy pid (p_id p) false] /\
+    refcount (y_srv y') (p_id p) = refcount (y_srv y) (p_id p) + 1 /\
+    holders y' (p_id p) = holders y (p_id p) + 1 /\
+    dget (objs (y_srv y')) (p_id p) = dget (objs (y_srv y)) (p_id p).
+Proof. exact inherit_takes_reference. Qed.
+Print Assumptions C20_inherited_proxy_takes_reference.
 
 (* user-level operations on real proxies (create / copy / drop / call incl. the construction
    of result proxies) keep the invariant *)
